@@ -1335,6 +1335,10 @@ def _searchsorted(I, a, k):
     if k.get("side", "left") != "left":
         raise Unsupported("searchsorted side != left")
     srt, v = a[0], a[1]
+    if isinstance(v, (list, tuple)) and len(v) <= 8:
+        # a short list of values: one specification instance per value, returned as an array
+        rs = [_searchsorted(I, [srt, x], k) for x in v]
+        return A.stack_list(rs)
     if isinstance(v, (SArr, list, np.ndarray)):
         raise Unsupported("searchsorted with an array of values and symbolic operands")
     sa = A.as_sarr(srt)
